@@ -289,8 +289,11 @@ func rstClose(c net.Conn) {
 }
 
 func (u *upstream) serveHTTP1(c net.Conn, id int64) {
+	// Requests are parsed as they arrive and each plan runs in its own goroutine, so a second request arriving on a
+	// ping-pong connection before the first was answered is OBSERVED (BusyOnConn > 0) instead of queued invisibly.
 	br := bufio.NewReader(c)
 	var inflight int32
+	var wmu sync.Mutex
 	for {
 		req, err := http.ReadRequest(br)
 		if err != nil {
@@ -311,44 +314,51 @@ func (u *upstream) serveHTTP1(c net.Conn, id int64) {
 		u.log.addUp(ev)
 		atomic.AddInt32(&inflight, 1)
 		a := parsePlan(planFor(plan, attempt))
-		if a.delay > 0 {
-			select {
-			case <-time.After(a.delay):
-			case <-u.stop:
-				return
-			}
-		}
-		switch a.final {
-		case "stall":
-			// hold the exchange open, but notice the peer closing the connection
-			_, _ = io.Copy(io.Discard, c)
-			return
-		case "close":
-			return
-		case "rst":
-			rstClose(c)
-			return
-		}
-		rb := respBody(token, u.Name, id, attempt, a.bodyLen)
-		hdr := fmt.Sprintf("HTTP/1.1 %d %s\r\nContent-Length: %d\r\nX-Verif-Token: %s\r\nX-Verif-Attempt: %d\r\nX-Verif-Upstream: %s\r\nX-Verif-Echo-Path: %s\r\n", a.status, http.StatusText(a.status), len(rb), token, attempt, u.Name, req.RequestURI)
-		if extra := req.Header.Get("X-Verif-Resp-Headers"); extra != "" {
-			for _, kv := range strings.Split(extra, ";") {
-				if p := strings.SplitN(kv, "=", 2); len(p) == 2 {
-					hdr += p[0] + ": " + p[1] + "\r\n"
+		uri, extra := req.RequestURI, req.Header.Get("X-Verif-Resp-Headers")
+		go func() {
+			if a.delay > 0 {
+				select {
+				case <-time.After(a.delay):
+				case <-u.stop:
+					return
 				}
 			}
-		}
-		hdr += "\r\n"
-		if a.final == "half" {
-			_, _ = c.Write([]byte(hdr))
-			_, _ = c.Write(rb[:len(rb)/2])
-			time.Sleep(50 * time.Millisecond)
-			return
-		}
-		if _, err := c.Write(append([]byte(hdr), rb...)); err != nil {
-			return
-		}
-		atomic.AddInt32(&inflight, -1)
+			switch a.final {
+			case "stall":
+				return // the reader loop notices when the peer closes the connection
+			case "close":
+				c.Close()
+				return
+			case "rst":
+				rstClose(c)
+				return
+			}
+			rb := respBody(token, u.Name, id, attempt, a.bodyLen)
+			hdr := fmt.Sprintf("HTTP/1.1 %d %s\r\nContent-Length: %d\r\nX-Verif-Token: %s\r\nX-Verif-Attempt: %d\r\nX-Verif-Upstream: %s\r\nX-Verif-Echo-Path: %s\r\n", a.status, http.StatusText(a.status), len(rb), token, attempt, u.Name, uri)
+			if extra != "" {
+				for _, kv := range strings.Split(extra, ";") {
+					if p := strings.SplitN(kv, "=", 2); len(p) == 2 {
+						hdr += p[0] + ": " + p[1] + "\r\n"
+					}
+				}
+			}
+			hdr += "\r\n"
+			wmu.Lock()
+			defer wmu.Unlock()
+			if a.final == "half" {
+				_, _ = c.Write([]byte(hdr))
+				_, _ = c.Write(rb[:len(rb)/2])
+				time.Sleep(50 * time.Millisecond)
+				c.Close()
+				return
+			}
+			// the exchange counts as answered from the moment the reply is handed to the socket: the peer cannot
+			// send its next request on this connection before it has received it
+			atomic.AddInt32(&inflight, -1)
+			if _, err := c.Write(append([]byte(hdr), rb...)); err != nil {
+				return
+			}
+		}()
 	}
 }
 
@@ -418,7 +428,12 @@ func (u *upstream) serveBolt(c net.Conn, id int64) {
 			atomic.AddInt32(&inflight, 1)
 			a := parsePlan(planFor(plan, attempt))
 			go func(f boltFields) {
-				defer atomic.AddInt32(&inflight, -1)
+				answered := false
+				defer func() {
+					if !answered {
+						atomic.AddInt32(&inflight, -1)
+					}
+				}()
 				if a.delay > 0 {
 					select {
 					case <-time.After(a.delay):
@@ -456,6 +471,8 @@ func (u *upstream) serveBolt(c net.Conn, id int64) {
 				resp := buildBolt(boltFields{V2: f.V2, Ver1: f.Ver1, CmdType: 0, CmdCode: 2, Ver: f.Ver, ID: rid, Codec: f.Codec, TimeoutOrS: status,
 					Class: []byte("com.verif.Resp"), HeaderBlk: boltHeaderBlock(rh), Content: rb})
 				wmu.Lock()
+				answered = true
+				atomic.AddInt32(&inflight, -1) // answered from the moment the reply is handed to the socket
 				if a.final == "half" {
 					_, _ = c.Write(resp[:len(resp)/2])
 					wmu.Unlock()
